@@ -89,7 +89,18 @@ def fmt_opt_s(s) -> str:
 
 
 def err(e: BaseException) -> str:
+    """exception class; the format-specifier error is told apart from the other ValueErrors by its documented
+    message (the one the repo's tests match on), so that the error *kind* is compared per string"""
+    if isinstance(e, ValueError) and str(e).startswith("Invalid format specifier"):
+        return "err ValueError:spec"
     return "err " + type(e).__name__
+
+
+def cls_char(r: str) -> str:
+    return "a" if r.startswith("ok") else {"err StyleError": "s", "err ValueError:spec": "v"}.get(r, "r")
+
+
+CLS_NAME = {"v": "ValueError:spec", "r": "ValueError", "s": "StyleError"}
 
 
 def poly_hash(h: int, s: str) -> int:
@@ -167,7 +178,7 @@ def doc_style(style: str, t: str):
 def doc_parse(style: str, s: str):
     """[h_align][width][.[v_align][height]][#[threshold|bgcolor]][+style], at least one of
     v_align/height after a dot.  returns ("ok", explicit draw() parameters) / ("err", allowed classes)"""
-    bad = ("err", {"ValueError"})
+    bad = ("err", {"ValueError:spec"})  # the format specification itself is violated
     i, n = 0, len(s)
     p = dict(h_align=None, pad_width=0, v_align=None, pad_height=-2, alpha="default", style={})
     if i < n and s[i] in "<|>":
@@ -223,7 +234,7 @@ def doc_parse(style: str, s: str):
     r = doc_style(style, t)
     if r[0] == "err":
         # a newline in the style part: the docs do not say which of the two errors it is
-        return ("err", r[1] | {"ValueError"}) if "\n" in t else r
+        return ("err", r[1] | {"ValueError:spec"}) if "\n" in t else r
     p["style"] = r[1]
     return ("ok", p)
 
@@ -625,7 +636,7 @@ class C19(Property):
             classes, h = [], 0
             for t in itertools.product(d["alphabet"], repeat=d["k"]):
                 r = one(cls, d["prefix"] + "".join(t))
-                classes.append("a" if r.startswith("ok") else "s" if r == "err StyleError" else "v")
+                classes.append(cls_char(r))
                 h = poly_hash(h, r)
             return f"ok {''.join(classes)} {h}"
         s = d.get("spec")
@@ -729,7 +740,7 @@ class C19(Property):
                 s = d["prefix"] + "".join(t)
                 pr = doc_parse(d["style"], s)
                 got = classes[i]
-                ok = (got == "a") if pr[0] == "ok" else (got != "a" and {"v": "ValueError", "s": "StyleError"}[got] in pr[1])
+                ok = (got == "a") if pr[0] == "ok" else (got != "a" and CLS_NAME[got] in pr[1])
                 if not ok:
                     f = self.oracle_spec(d["style"], s, 80, 30, self.check_one(cls, s), "sweep") or \
                         Failure(f"sweep/{d['style']}/{s!r}", "sweep class differs but single evaluation agrees")
@@ -744,7 +755,7 @@ class C19(Property):
                     continue
                 pr = doc_style(d["style"], s)
                 got = classes[i]
-                ok = (got == "a") if pr[0] == "ok" else (got != "a" and {"v": "ValueError", "s": "StyleError"}[got] in pr[1])
+                ok = (got == "a") if pr[0] == "ok" else (got != "a" and CLS_NAME[got] in pr[1])
                 if not ok:
                     return Failure(f"style/{d['style']}/{s!r}", f"style part {s!r}: documented {pr}, code class {got!r}",
                                    case=self.single("stylespec", d["style"], s, kind="ssweep-witness"))
